@@ -748,3 +748,186 @@ def run_violated(rec, p):
     def v(row):
         return not bool(fn(vt.inverse_transf(np.array(row, dtype=float).reshape(1, -1)))[0] <= 0)
     return v
+
+
+# ----------------------------------------------------------------------------- the program regenerated from the source (gen/Src_filter.v)
+
+REQUIRES_SRC = REQUIRES + ["PV.Model.FilterSrc", "PV.gen.Src_filter"]
+# the same literals evaluated by [src_filter]: the constraint is handed over as a NUMBER (the value the code compares with 0):
+# ball / half-space exactly, a table row as +1 (violated) / -1 (feasible); the table is keyed on the internal row, so the
+# transform is the identity there and inv_affine for the two closed-form constraints; fl_X = the log, X_max_idx = len - 1
+SRC_DEFS = r"""
+Definition cval_code (k : Z) (tb : list (qrow * bool)) : option (qrow -> Q) :=
+  if k =? 0 then None
+  else if k =? 1 then Some (fun x => Qred (qsum (map (fun t => t * t)%Q x) - inject_Z (4 * Z.of_nat (List.length x))))
+  else if k =? 2 then Some (fun x => Qred (qsum x - (2 # 1)))
+  else Some (fun x => if table_oracle tb x then (1 # 1) else (-1 # 1)).
+Definition inv_code (k : Z) (u : qrow) : qrow := if (k =? 1) || (k =? 2) then inv_affine u else u.
+Definition ok_int_src (c : ((Z * Z * Z) * (list Z * list Z)) * (list (list Z) * list (list Z)) * option (list (list Z))) : bool :=
+  let '(((p, t, k), (lb, ub)), (U, L), E) := c in
+  match E with
+  | None => false
+  | Some e => rows_eqb (src_filter (inv_code k) (zrows U) (zbnds lb) (zbnds ub) (inject_Z t) (zrows L)
+                                   (Z.of_nat (List.length L) - 1) (p =? 1) (cval_code k [])) (zrows e)
+  end.
+Definition ok_q_src (c : ((bool * list bnd * list bnd * Q) * (positive * list (list Z) * list (list Z)) * (Z * list (list Z * bool))) * option (list (list Z))) : bool :=
+  let '(((proj, lb, ub, tol), (d, U, L), (k, tb)), E) := c in
+  match E with
+  | None => false
+  | Some e => rows_eqb (src_filter (inv_code k) (drows d U) lb ub tol (drows d L) (Z.of_nat (List.length L) - 1) proj
+                          (cval_code k (map (fun p => (map (fun n => Qred (n # d)) (fst p), snd p)) tb)))
+                       (drows d e)
+  end.
+"""
+RUN_SRC_DEFS = r"""
+Definition ok_run_src (c : ((bool * list bnd * list bnd * Q) * (positive * list (list Z) * (nat * nat)) * (Z * list (list Z * bool))) * option (list (list Z))) : bool :=
+  let '(((proj, lb, ub, tol), (d, U, (rid, n)), (k, tb)), E) := c in
+  match E with
+  | None => false
+  | Some e => rows_eqb (src_filter (inv_code k) (drows d U) lb ub tol (nth rid runlogs []) (Z.of_nat n - 1) proj
+                          (cval_code k (map (fun p => (map (fun n => Qred (n # d)) (fst p), snd p)) tb)))
+                       (drows d e)
+  end.
+"""
+
+
+def src_generated_ok():
+    from translate import filter as TF
+    return TF.OUT.exists() and TF.MARK in TF.OUT.read_text()
+
+
+def run_cases_both(name, case_ty, ok_fun, ok_fun_src, cases, shard=400, timeout=900, defs=""):
+    """Like core.run_cases, but every shard is evaluated twice on the SAME literals: by the hand-written model (ok_fun) and by
+    the program regenerated from the source (ok_fun_src).  Returns (compiled, bad_model, bad_src, log)."""
+    from concurrent.futures import ThreadPoolExecutor
+    from vlib import core
+    tg = [r[3:].replace(".", "/") + ".vo" for r in REQUIRES_SRC if r.startswith("PV.")]
+    okb, logb = core.coq_make(tg)
+    if not okb:
+        return False, [], [], "required modules do not build:\n" + logb[-2000:]
+    shards = [cases[i:i + shard] for i in range(0, len(cases), shard)] or [[]]
+
+    def one(k):
+        body = defs + f"\nDefinition the_cases : list ({case_ty}) := " + clist(["\n  " + c for c in shards[k]]) + ".\n"
+        body += f"Eval vm_compute in (bad_indices ({ok_fun}) the_cases).\n"
+        body += f"Eval vm_compute in (bad_indices ({ok_fun_src}) the_cases).\n"
+        ok, out = core.coq_eval(f"{name}_{k}", REQUIRES_SRC, body, timeout=timeout)
+        ev = core.split_evals(out) if ok else []
+        lists = [core.parse_nat_list(e) for e in ev]
+        if not ok or len(lists) != 2 or any(x is None for x in lists):
+            return False, None, None, out
+        return True, lists[0], lists[1], out
+    with ThreadPoolExecutor(max_workers=min(12, len(shards))) as ex:
+        res = list(ex.map(one, range(len(shards))))
+    allok, bm, bs, log = True, [], [], ""
+    for k, (ok, a, b, out) in enumerate(res):
+        if not ok:
+            allok = False
+            log += f"[shard {k}] coqc failed:\n{out[-3000:]}\n"
+        else:
+            bm += [k * shard + i for i in a]
+            bs += [k * shard + i for i in b]
+    return allok, bm, bs, log
+
+
+def _ulp(x, k=1):
+    y = float(x)
+    for _ in range(abs(k)):
+        y = math.nextafter(y, math.inf if k > 0 else -math.inf)
+    return y
+
+
+def gen_aimed(rng, i, focus):
+    """One case aimed at a construct of contraints_check.  focus in {"stage1" (projection / box test), "stage2" (exact duplicates),
+    "stage3" (rounded stack), "stage4" (constraint)}.  Verdicts come from the declarative monitor only."""
+    D = rng.choice([1, 2, 2, 3])
+    if focus == "stage1":
+        lb, ub = [], []
+        for _ in range(D):
+            a, b = sorted([rng.choice([-2.0, -1.0, -0.5, 0.0]), rng.choice([0.5, 1.0, 2.0, 3.0])])
+            r = rng.random()
+            lb.append(None if r < 0.15 else a)
+            ub.append(None if 0.15 <= r < 0.3 else b)
+        def coord(d, mode):
+            l, u = lb[d], ub[d]
+            inside = ((l if l is not None else -1.0) + (u if u is not None else 1.0)) / 2
+            if mode == "in":
+                return rng.choice([inside, l if l is not None else inside, u if u is not None else inside])
+            if mode == "lo" and l is not None:
+                return rng.choice([_ulp(l, -1), l - 2.0 ** -30, l - 1e-9, l - 0.5, l - 7.0])
+            if mode == "hi" and u is not None:
+                return rng.choice([_ulp(u, 1), u + 2.0 ** -30, u + 1e-9, u + 0.5, u + 7.0])
+            return inside
+        U = []
+        for _ in range(rng.choice([1, 2, 3, 5])):
+            k = rng.randrange(D)             # exactly one coordinate off (any vs all), sometimes two, sometimes none
+            modes = ["in"] * D
+            r = rng.random()
+            if r < 0.4:
+                modes[k] = "lo"
+            elif r < 0.8:
+                modes[k] = "hi"
+            elif r < 0.9 and D > 1:
+                modes[k] = "lo"; modes[(k + 1) % D] = "hi"
+            U.append([coord(d, modes[d]) for d in range(D)])
+        return dict(stream="aimed:stage1", D=D, U=U, oneD=False, lb=lb, ub=ub, proj=rng.random() < 0.5, tol=2.0 ** -rng.choice([1, 10, 40]),
+                    cons=None, vt="none", log=[])
+    if focus == "stage2":
+        base = [[rng.choice([-1.5, -0.0, 0.0, 0.25, 1.0, 2.5]) for _ in range(D)] for _ in range(rng.choice([1, 2, 3]))]
+        U = [list(r) for r in base]
+        for _ in range(rng.choice([1, 2, 4])):
+            r = list(rng.choice(U)); m = rng.random()
+            if m < 0.5:
+                pass                                             # exact repeat
+            elif m < 0.7:
+                r[rng.randrange(D)] = _ulp(r[rng.randrange(D)], rng.choice([1, -1]))     # one ulp apart: NOT a duplicate
+            else:
+                r = [x + 0.0 if x != 0 else rng.choice([0.0, -0.0]) for x in r]
+            U.insert(rng.randrange(len(U) + 1), r)
+        lb = [rng.choice([-2.0, -1.0, None]) for _ in range(D)]
+        ub = [rng.choice([2.0, 1.0, None]) for _ in range(D)]       # projection creates duplicates
+        return dict(stream="aimed:stage2", D=D, U=U, oneD=False, lb=lb, ub=ub, proj=rng.random() < 0.6, tol=2.0 ** -rng.choice([30, 45]),
+                    cons=None, vt="none", log=[list(rng.choice(U))] if rng.random() < 0.3 else [])
+    if focus == "stage3":
+        tol = 2.0 ** rng.choice([1, 0, -1, -3, -10])
+        h = tol / 2
+        U = []
+        for _ in range(rng.choice([2, 3, 5, 8])):
+            U.append([rng.randint(-4, 4) * h + rng.choice([0.0, 0.0, h / 2, -h / 2, h / 4, -h / 4, h / 2 - h / 64, h / 2 + h / 64]) for _ in range(D)])
+        log = [list(rng.choice(U)) for _ in range(rng.choice([0, 1, 2, 4]))] + [[rng.randint(-4, 4) * h for _ in range(D)] for _ in range(rng.choice([0, 1]))]
+        return dict(stream="aimed:stage3", D=D, U=U, oneD=False, lb=[-8.0] * D, ub=[8.0] * D, proj=rng.random() < 0.5, tol=tol, cons=None, vt="none", log=log)
+    # stage4: constraint values exactly 0, just above, just below; single rows; the affine transform X = clip(2u, -4, 4)
+    kind = rng.choice(["half", "half", "ball"])
+    U = []
+    for _ in range(rng.choice([1, 1, 2, 4])):
+        if kind == "half":          # sum(2u) - 2 : on the boundary when sum(u) = 1
+            u = [rng.choice([-0.5, 0.0, 0.25, 0.5, 1.0]) for _ in range(D)]
+            u[-1] = 1.0 - sum(u[:-1]) + rng.choice([0.0, 0.0, 2.0 ** -20, -2.0 ** -20, 2.0 ** -40, 0.25, -0.25])
+        else:                       # sum((2u)^2) - 4 D : on the boundary at u = (+-1, ..., +-1)
+            u = [rng.choice([-1.0, 1.0]) for _ in range(D)]
+            u[rng.randrange(D)] += rng.choice([0.0, 0.0, 2.0 ** -20, -2.0 ** -20, 0.25, -0.25])
+        U.append(u)
+    return dict(stream="aimed:stage4", D=D, U=U, oneD=False, lb=[-2.0] * D, ub=[2.0] * D, proj=rng.random() < 0.5, tol=2.0 ** -rng.choice([1, 10, 30]),
+                cons=kind, vt="affine", log=[])
+
+
+def tie_source_small(ctx, broken, n=800):
+    """Translator validation for a property that only USES gen/Src_filter.v (the full validation is C17's tie): the generated program
+    evaluated by vm_compute on n random + n/4 table cases against the real contraints_check."""
+    from vlib import core
+    name = "correspondence:filter_source"
+    if not src_generated_ok():
+        ctx.oblige(name, "correspondence", False, "NOT EVALUATED: gen/Src_filter.v was not generated (source outside the translator's whitelist)")
+        broken.append((name, "the program regenerated from contraints_check could not be evaluated"))
+        return
+    cases = [random_case(ctx.rng, i) for i in range(n)] + [table_case(ctx.rng, i) for i in range(n // 4)]
+    lits = []
+    for c in cases:
+        tb = None if c["cons"] in (None, "ball", "half") and c["vt"] in ("none", "affine") else make_table(c)
+        lits.append(coq_q_case(c, run_real(c), tb))
+    ok, bad, log = core.run_cases("filter_src_small", REQUIRES_SRC, Q_TY, "ok_q_src", lits, shard=200, defs=DEFS + SRC_DEFS)
+    ctx.count(len(cases), len(cases))
+    if not ctx.oblige(name, "correspondence", ok and not bad, f"{len(bad)} of {len(cases)} cases differ between src_filter (vm_compute) and the real contraints_check; " + log[-300:]):
+        c = cases[bad[0]] if bad else None
+        broken.append((name, "the program regenerated from contraints_check differs from the real function" +
+                       (f" on U={c['U']} lb={c['lb']} ub={c['ub']} tol_mesh={c['tol']} proj={c['proj']} cons={c['cons']}" if c else ": case files did not compile")))
